@@ -139,7 +139,18 @@ pub fn run(run: &Run) {
     {
         let mut all = mark_neighbour_strings(0);
         all.extend(mark_neighbour_strings(2));
-        battery(run, "mark_neighbours", &all, &|s, l| match check(run, s, l) {
+        {
+        let mut all = many_distinct_then_offender(true);
+        all.extend(pairs_at_block_cuts(true));
+        battery(run, "many_distinct_and_pairs_at_block_cuts", &all, &|s, l| match check(run, s, l) {
+            Ok(()) => true,
+            Err(v) => {
+                run.violate(v);
+                false
+            }
+        });
+    }
+    battery(run, "mark_neighbours", &all, &|s, l| match check(run, s, l) {
             Ok(()) => true,
             Err(v) => {
                 run.violate(v);
